@@ -584,7 +584,8 @@ def execImplicitAccount (a : Val) : Res Val :=
 /-- `CONTRACT %entrypoint t` after `pop1` (no node: `get_entrypoint_type` answers `None` for an originated address —
 "skip type checking"): `contract_address, address_entrypoint = address._split()`; inside the `try`: `assert 'default' in
 (address_entrypoint, entrypoint)`, `if entrypoint == 'default': entrypoint = address_entrypoint`, `if
-is_pkh(contract_address): assert entrypoint == 'default'; UnitType.assert_type_equal(t)`,
+is_pkh(contract_address): assert entrypoint == 'default'; assert t.prim in ('unit', 'ticket')` (`Ty` has no ticket type,
+so: `t = unit`),
 `OptionType.from_some(contract_type.from_value(f'{contract_address}%{entrypoint}'))`; a failed assertion gives
 `OptionType.none(contract_type)` -/
 def execContract (t : Ty) (entrypoint : List Nat) (a : Val) : Res Val :=
